@@ -298,6 +298,11 @@ func vdPruneStream(rng *rand.Rand, n int, tier string, out string) (*Summary, er
 			g.pField = jb.PField
 			g.nastyStr = false
 			root := g.genTree()
+			if jb.TreeSeed%2 == 0 {
+				if n := vdTwinKeys(p, root); n > 0 {
+					sum.count("twin_keys", "tree with two list entries whose Go keys print the same")
+				}
+			}
 			before := treeTerm(root)
 			lmBefore := leafMapOf(root)
 			want := map[string]string{}
@@ -446,4 +451,69 @@ func vdCollectStructs(v reflect.Value, out *[]reflect.Value, depth int) {
 			}
 		}
 	}
+}
+
+// vdTwinKeys: in every keyed list whose Go key is a struct with at least two string fields and that
+// holds an entry, two copies of that entry are added under the keys {"r 7", "s 1", ...} and
+// {"r", "7 s 1", ...}: different keys whose printed forms (fmt: {r 7 s 1 ...}) are the same. A
+// traversal that identifies map keys by their printed form visits one of them twice and the other
+// never. Deterministic in the tree.
+func vdTwinKeys(p *reg.Pkg, root ygot.GoStruct) (n int) {
+	for _, s := range mgSlots(p, root) {
+		if s.kind != "map" {
+			continue
+		}
+		fv := s.field()
+		kt := fv.Type().Key()
+		if kt.Kind() != reflect.Struct || fv.Len() == 0 {
+			continue
+		}
+		var strs []int
+		for i := 0; i < kt.NumField(); i++ {
+			if kt.Field(i).Type.Kind() == reflect.String {
+				strs = append(strs, i)
+			}
+		}
+		if len(strs) < 2 {
+			continue
+		}
+		var es []keyedEntry
+		it := fv.MapRange()
+		for it.Next() {
+			es = append(es, keyedEntry{keys: keyValues(it.Key()), entry: it.Value()})
+		}
+		sort.Slice(es, func(a, b int) bool { return lessKeys(es[a].keys, es[b].keys) })
+		var src reflect.Value
+		it = fv.MapRange()
+		for it.Next() {
+			if it.Value() == es[0].entry {
+				src = it.Key()
+			}
+		}
+		if !src.IsValid() {
+			continue
+		}
+		for _, pair := range [][2]string{{"r 7", "s 1"}, {"r", "7 s 1"}} {
+			k := reflect.New(kt).Elem()
+			k.Set(src)
+			k.Field(strs[0]).SetString(pair[0])
+			k.Field(strs[1]).SetString(pair[1])
+			ent := mgCloneValue(es[0].entry)
+			ok := true
+			for j, i := range strs[:2] {
+				f := ent.Elem().FieldByName(kt.Field(i).Name)
+				if !f.IsValid() || f.Kind() != reflect.Ptr || f.Type().Elem().Kind() != reflect.String {
+					ok = false
+					break
+				}
+				v := pair[j]
+				f.Set(reflect.ValueOf(&v))
+			}
+			if ok {
+				fv.SetMapIndex(k, ent)
+				n++
+			}
+		}
+	}
+	return n
 }
